@@ -357,8 +357,10 @@ SilentViewBound(e, j) == (FaultRun /\ run.params.kind \in {"silent", "watch"}) =
 
 \* C16 Dynamic block time
 DynRun == SyncRun /\ run.params.maxTpb > 0
+\* (the property speaks about networks with the extension configured; the sync driver's other runs may delay one validator's
+\* traffic by more than delayMax)
 MinGap(e, j) ==
-  (SyncRun /\ lastProp.k = "p" /\ e.cb[j].m.h = lastProp.h + 1 /\ e.cb[j].m.v = 0) =>
+  (DynRun /\ lastProp.k = "p" /\ e.cb[j].m.h = lastProp.h + 1 /\ e.cb[j].m.v = 0) =>
      e.now - lastProp.now >= run.params.tpb - run.params.delayMax
 EmptyOnlyAfterMax(e, j) ==
   (DynRun /\ lastProp.k = "p" /\ e.cb[j].m.h = lastProp.h + 1 /\ e.cb[j].m.v = 0 /\ e.cb[j].m.txs = <<>>) =>
